@@ -689,7 +689,11 @@ pub fn generate_hist(prop: &str, tier: &str, rng: &mut Rng) -> Vec<String> {
         // shadow of (tag, len) to steer the generator towards exact-fit and failing operations
         let mut sh: Vec<(usize, usize)> = vec![];
         let target_entries = rng.range(1, 5) as usize;
-        let size = match rng.below(6) { 0 => rng.below(30) as usize, 1 => 300, _ => rng.range(20, 140) as usize };
+        // one history in six is "wide": a buffer of several hundred bytes and lengths around the points where the second
+        // byte of the little-endian length field comes into play (255/256/257, 511/512), in both directions
+        let wide = rng.chance(1, 6);
+        const WIDE_LENS: &[usize] = &[200, 250, 255, 256, 257, 300, 320, 511, 512, 513];
+        let size = if wide { *rng.pick(&[330usize, 420, 600, 800, 1100]) } else { match rng.below(6) { 0 => rng.below(30) as usize, 1 => 300, _ => rng.range(20, 140) as usize } };
         let raw = prop == "C04" && rng.chance(1, 5);
         if raw {
             // an openable but non-canonical start: valid entries, terminator, then garbage
@@ -714,7 +718,8 @@ pub fn generate_hist(prop: &str, tier: &str, rng: &mut Rng) -> Vec<String> {
             match rng.below(20) {
                 0..=3 => {
                     let t = if sh.len() < target_entries || rng.chance(1, 2) { rng.below(8) as usize } else { sh[rng.below(sh.len() as u64) as usize].0 };
-                    let len = match rng.below(6) { 0 => free.saturating_sub(12), 1 => free.saturating_sub(11), 2 => free + rng.below(3) as usize, _ => rng.below(24) as usize };
+                    let mut len = match rng.below(6) { 0 => free.saturating_sub(12), 1 => free.saturating_sub(11), 2 => free + rng.below(3) as usize, _ => rng.below(24) as usize };
+                    if wide && rng.chance(1, 2) { len = *rng.pick(WIDE_LENS); }
                     let allow = rng.chance(1, 2);
                     let dup = sh.iter().any(|x| x.0 == t);
                     v.push(format!("O alloc {t} {len} {}", allow as u8));
@@ -728,7 +733,8 @@ pub fn generate_hist(prop: &str, tier: &str, rng: &mut Rng) -> Vec<String> {
                 }
                 6..=9 => {
                     if let Some((t, rep, old)) = pick_existing(rng, &sh) {
-                        let len = match rng.below(7) { 0 => 0, 1 => old, 2 => old + free, 3 => old + free + 1, 4 => old / 2, 5 => if rng.chance(1, 8) { u32::MAX as usize + 1 } else { old + 1 }, _ => rng.below(40) as usize };
+                        let mut len = match rng.below(7) { 0 => 0, 1 => old, 2 => old + free, 3 => old + free + 1, 4 => old / 2, 5 => if rng.chance(1, 8) { u32::MAX as usize + 1 } else { old + 1 }, _ => rng.below(40) as usize };
+                        if wide && rng.chance(1, 2) { len = *rng.pick(WIDE_LENS); }
                         v.push(format!("O realloc {t} {len} {rep}"));
                         if len <= old + free { let i = sh.iter().enumerate().filter(|(_, x)| x.0 == t).nth(rep).unwrap().0; sh[i].1 = len; }
                     } else { v.push(format!("O realloc {} {} {}", rng.below(8), rng.below(10), rng.below(2))); }
